@@ -5,7 +5,6 @@ import (
 	"fmt"
 	"os"
 	"path/filepath"
-	"testing"
 
 	kv "github.com/XiXi-2024/xixi-kv"
 
@@ -17,10 +16,15 @@ import (
 // Put(k, v1); Sync(); Merge() during which - right after its rotation - Put(k, v2) is acknowledged (SyncStrategy No,
 // so v2 is not flushed); Merge returns; the power fails. Every file is cut back to its flushed length, the image is
 // opened, and k must map to v1 or to v2 (C03: some prefix of the acknowledged mutations).
-func c03MergeRaceProbe(t *testing.T, st *kvh.Stats) {
+func c03MergeRaceProbe(t fataler, st *kvh.Stats) {
 	if !kvh.GetEnv().Mine(1 % kvh.GetEnv().NShards) {
 		return
 	}
+	// a probe that comes to a halt is a verdict of the deadlock watchdog like any other case
+	kvh.SetInFlight(&kvh.InFlight{Property: "C03", Case: func() any {
+		return map[string]string{"property": "C03", "kind": "probe-c03-merge-race", "note": "fixed schedule, see c03MergeRaceProbe"}
+	}})
+	defer kvh.SetInFlight(nil)
 	e := kvh.GetEnv()
 	base := e.NewDir("c03probe")
 	defer func() {
@@ -110,4 +114,8 @@ func c03MergeRaceProbe(t *testing.T, st *kvh.Stats) {
 	default:
 		report(t, st, cs, &kvh.Fail{Sig: "recovered-state-not-a-prefix", Msg: fmt.Sprintf("merge-race probe: after the power failure Get(k) = (%s, %v), want the value of Put #1 or Put #2", kvh.ValueDigest(got), gerr)})
 	}
+}
+
+func init() {
+	replayers["probe-c03-merge-race"] = func(_ *kvh.Case, _ []byte) *kvh.Fail { return replayProbe(c03MergeRaceProbe, "C03") }
 }
